@@ -359,14 +359,18 @@ def run_pure(ctx):
         ctx.case({"filter": [ex, inc, sl, el, obs]}, nontrivial_key=("lf", tuple(ex), tuple(inc), sl, el) if (ex or inc) else None)
     if copy_fn is None:
         ctx.notes.append("remove_unused_imports.RemoveUnusedImports no longer defines its own filter_by_path_includes_or_excludes")
-    bad = core.eval_bad_indices(ctx, "c13_lf", IMPORTS, "lf_case", lf, ["lf_model_ok", "lf_spec_ok"], chunk=1000)
+    bad = core.eval_bad_indices(ctx, "c13_lf", IMPORTS, "lf_case", lf, ["lf_model_ok", "lf_spec_ok", "lf_shadow_ok"], chunk=1000)
+    shadow_bad = set(bad["lf_shadow_ok"])
     for i in bad["lf_model_ok"]:
         ex, inc, sl, el, obs = meta_lf[i]
         ctx.mismatch("UtilsMixin.filter_by_path_includes_or_excludes vs Model.LineFilter", f"exclude={ex} include={inc} lines {sl}-{el}: {obs}",
                      {"kind": "lf", "exclude": ex, "include": inc, "start": sl, "end": el, "observed": obs})
     for i in bad["lf_spec_ok"]:
         ex, inc, sl, el, obs = meta_lf[i]
-        ctx.violation("kf_c13_filter_rule", f"a node on line {sl} with exclude={ex} include={inc} is {'selected' if obs else 'rejected'}",
+        # the known deviation absorbs a case only if it predicts the observed answer
+        cls = "kf_c13_exclude_shadows_include" if (ex and inc and i not in shadow_bad) else "kf_c13_filter_rule"
+        ctx.violation(cls, f"a node on line {sl} with exclude={ex} include={inc} is {'selected' if obs else 'rejected'}; the property "
+                      f"demands: selected iff the line is not excluded and (no line is included or the line is)",
                       {"kind": "lf", "exclude": ex, "include": inc, "start": sl, "end": el, "observed": obs})
 
 
@@ -491,7 +495,8 @@ def e2e(ctx):
         for sh in sorted(dead):
             ctx.count(f"e2e_shape_not_firing:{k}:{sh}")
         if "flat" in dead or o["rc"] != 0:
-            ctx.notes.append(f"control run of {k}: the flat trigger template no longer fires (rc={o['rc']}); codemod not searched")
+            ctx.mismatch("C13 conformance search coverage", f"control run of {k}: the flat trigger template no longer fires (rc={o['rc']}, "
+                         f"stderr {o['stderr'][-200:]!r}); the codemod would not be searched", {"kind": "control", "codemod": k, "lines": j["lines"]})
             firing[k] = []
     # phase 2 - the search
     jobs = []
@@ -584,7 +589,8 @@ def e2e(ctx):
                                                          "observed_change_lines")}},
                      nontrivial_key=("e2e", k, r_, tuple(f["sites"]), tuple(o["exc"]), tuple(o["inc"])) if proper else None,
                      sample=proper and len(ctx.samples) < 5)
-    bad = core.eval_bad_indices(ctx, "c13_sites", IMPORTS, "site_case", cases, ["site_spec_ok", "site_aspassed_ok", "site_current_ok"], chunk=200)
+    bad = core.eval_bad_indices(ctx, "c13_sites", IMPORTS, "site_case", cases, ["site_spec_ok", "site_aspassed_ok", "site_current_ok", "site_shadow_ok"], chunk=200)
+    shadow_site_bad = set(bad["site_shadow_ok"])
     form = (ctx.tables or {}).get("line_pattern_path_form", "Both")
     aspassed_bad, current_bad = set(bad["site_aspassed_ok"]), set(bad["site_current_ok"])
     for i in bad["site_spec_ok"]:
@@ -593,6 +599,9 @@ def e2e(ctx):
         if form == "AsPassedAbsolute" and i not in aspassed_bad:
             cls = "kf_c13_relative_line_pattern_ignored"
             why = "explained by matching the `path:line` patterns against the path as passed only"
+        elif o["exc"] and o["inc"] and i not in shadow_site_bad:
+            cls = "kf_c13_exclude_shadows_include"
+            why = "explained exactly by the exclusion list shadowing the inclusion list (a line that is not included was rewritten)"
         elif not (o["exc"] or o["inc"]):
             cls = f"kf_c13_site_not_rewritten_without_patterns:{k}"
             why = "no line pattern was given, and the same construct is rewritten when it is not nested"
